@@ -279,6 +279,10 @@ func matchCbor(v *cbor8949.Value, e seqx.Exp) error {
 		}
 		return seqx.Match(n, e)
 	}
+	// "float32/float64 bit-exact": a value logged through a float method travels as a float of the width logged
+	if e.FBits != 0 && v.Major == 7 && v.FloatW != 0 && v.FloatW != e.FBits {
+		return fmt.Errorf("got a %d-bit float (%v), logged as float%d", v.FloatW, v.Float, e.FBits)
+	}
 	switch e.Kind {
 	case '?':
 		return nil
